@@ -219,8 +219,8 @@ PROPS["C08"] = {
 }
 PROPS["C09"] = {
     "level": "other",
-    "technique": "deductive verification of ScaffoldNamer.label_scaffold (decision table of destination tags, rank, haplotype) + bounded routing oracle per piece over tagged PretextView-model maps",
-    "level_text": "Proved: label_scaffold tags a piece FalseDuplicate, Haplotig or Contaminant exactly as its own tags say (in that precedence), tags it Contaminant in Target mode when the Pretext scaffold has no Target tag, gives such pieces rank 3, leaves other pieces untagged with the scaffold's rank, and records the current haplotype. Bounded: fusion by (tag, haplotype, name), routing of fused scaffolds to assemblies, Target-mode treatment of sequence absent from the map, name-derived haplotypes. Known findings: C09-name-derived-haplotype, C09-haplotype-prefix-name-shape.",
+    "technique": "deductive verification of ScaffoldNamer.label_scaffold (decision table of destination tags, rank, haplotype) and of the routing loop of BuildAssembly.assemblies_with_scaffolds_fused (per fused scaffold: destination assembly and its curated flag) + bounded routing oracle per piece over tagged PretextView-model maps, down to the files the CLI writes",
+    "level_text": "Proved: label_scaffold tags a piece FalseDuplicate, Haplotig or Contaminant exactly as its own tags say (in that precedence), tags it Contaminant in Target mode when the Pretext scaffold has no Target tag, gives such pieces rank 3, leaves other pieces untagged with the scaffold's rank, and records the current haplotype; assemblies_with_scaffolds_fused puts every fused scaffold into exactly one output assembly - the assembly of its destination tag if it has one (created not curated), otherwise of its haplotype, otherwise the primary one (both created curated) - appends it there, reuses an assembly that already exists and leaves the other assemblies and all curated flags alone (per iteration of the routing loop; the list of fused scaffolds, ChrNamer and the statistics are opaque there). Bounded: fusion by (tag, haplotype, name), the file names the CLI derives from the curated flag, Target-mode treatment of sequence absent from the map, name-derived haplotypes. Known findings: C09-name-derived-haplotype, C09-haplotype-prefix-name-shape.",
     "level_note": PIPE_NOTE,
     "lemmas": [],
     "bounded": [("bounded.c09", {})],
